@@ -329,7 +329,7 @@ Proof.
         (argspec_defaults (mk_sig an args D va kwonly kwd vk))
         (argspec_kwonly (mk_sig an args D va kwonly kwd vk))
         (argspec_kwdefaults (mk_sig an args D va kwonly kwd vk))
-        (argspec_annotations (mk_sig an args D va kwonly kwd vk)) (f_async f)) = func_names f).
+        (argspec_annotations (mk_sig an args D va kwonly kwd vk)) (f_async f) (f_dict f)) = func_names f).
   { unfold all_names, func_names. cbn [fb_args fb_varargs fb_kwonly fb_varkw].
     rewrite argspec_args_eq, argspec_varpos_eq, argspec_kwonly_eq, argspec_varkw_eq by exact L. reflexivity. }
   assert (R0 : forall x, In x (func_names f) ->
@@ -689,7 +689,7 @@ Proof.
     { apply d_get_none_iff. intro Hk. destruct (AI n Hk) as [E|Hin]; [exact (Hn0 E) | exact (MN Hin)]. }
     assert (GOOD : forall dflt, length (odflt dflt) <= length (args ++ [n]) ->
       good (mkFB (fb_name b) (fb_doc b) (fb_module b) (args ++ [n]) (fb_varargs b) (fb_varkw b) dflt
-                 (fb_kwonly b) (fb_kwdefaults b) (fb_annotations b) (fb_async b))).
+                 (fb_kwonly b) (fb_kwdefaults b) (fb_annotations b) (fb_async b) (fb_dict b))).
     { intros dflt Ld. unfold all_names in ND, NZ, AI, MN. fold args in ND, NZ, AI, MN.
       constructor; unfold all_names; cbn [fb_args fb_varargs fb_kwonly fb_varkw fb_defaults fb_kwdefaults fb_annotations].
       - rewrite <- app_assoc. simpl.
@@ -771,24 +771,26 @@ Proof.
 Qed.
 
 (* ---- update_wrapper ------------------------------------------------------------------------------------------ *)
-Definition fb_func (b : fbuilder) : pyfunc :=
+Definition fb_func (b : fbuilder) (gid : nat) (with_dict : bool) : pyfunc :=
   mkF (fb_name b) (Some (fb_doc b)) (fb_module b) (fb_args b) (fb_varargs b) (fb_kwonly b) (fb_varkw b)
-      (fb_defaults b) (Some (fb_kwdefaults b)) (fb_annotations b) (fb_async b).
+      (fb_defaults b) (Some (fb_kwdefaults b)) (fb_annotations b) (fb_async b) gid
+      (d_set (if with_dict then d_update [] (fb_dict b) else []) K_SOURCE SRC).
 
-Lemma get_func_good b : good b -> get_func b = Ok (fb_func b) /\ sig_of (fb_func b) = Ok (fb_sig b).
+Lemma get_func_good b gid wd : good b ->
+  get_func b gid wd = Ok (fb_func b gid wd) /\ sig_of (fb_func b gid wd) = Ok (fb_sig b).
 Proof.
   intros G. split.
   - unfold get_func. rewrite (proj2 (nodup_b_NoDup _) (g_nodup b G)). reflexivity.
   - rewrite sig_of_func_sig by (simpl; apply (g_len b G)). reflexivity.
 Qed.
 
-Lemma get_func_dup b : ~ NoDup (all_names b) -> get_func b = Raise SyntaxErr.
+Lemma get_func_dup b gid wd : ~ NoDup (all_names b) -> get_func b gid wd = Raise SyntaxErr.
 Proof.
   intro H. unfold get_func. destruct (nodup_b (all_names b)) eqn:E; [|reflexivity].
   apply nodup_b_NoDup in E. contradiction.
 Qed.
 
-Lemma sig_of_set_doc g doc : sig_of (set_doc g doc) = sig_of g.
+Lemma sig_of_set_doc_dict g doc d : sig_of (set_doc_dict g doc d) = sig_of g.
 Proof. reflexivity. Qed.
 
 Lemma get_invocation_fb b : get_invocation b = inv_of_params (sg_params (fb_sig b)).
@@ -799,6 +801,28 @@ Proof.
   f_equal.
   - destruct (fb_varargs b); reflexivity.
   - destruct (fb_varkw b); reflexivity.
+Qed.
+
+(* the __dict__ the result ends up with: __wrapped__ is the wrapped function,
+   whatever the copied attributes said (absent with hide_wrapped); no __signature__ *)
+Lemma final_dict_wrapped o fid d : NoDup (dkeys d) ->
+  d_get (final_dict o fid d) K_WRAPPED = (if o_hide_wrapped o then None else Some fid) /\
+  NoDup (dkeys (final_dict o fid d)) /\
+  d_get (final_dict o fid d) K_SIGNATURE = None.
+Proof.
+  intro ND. unfold final_dict.
+  assert (N1 : NoDup (dkeys (d_del d K_SIGNATURE))) by (apply d_del_nodup; exact ND).
+  destruct (o_hide_wrapped o).
+  - split; [apply d_get_d_del_same; exact N1|]. split; [apply d_del_nodup; exact N1|].
+    rewrite d_get_d_del_other by discriminate. apply d_get_d_del_same. exact ND.
+  - split; [apply d_get_d_set_same|]. split; [apply d_set_nodup; exact N1|].
+    rewrite d_get_d_set_other by discriminate. apply d_get_d_del_same. exact ND.
+Qed.
+
+Lemma source_dict_nodup (d : pydict nat) (wd : bool) :
+  NoDup (dkeys (d_set (if wd then @d_update nat [] d else ([] : pydict nat)) K_SOURCE SRC)).
+Proof.
+  apply d_set_nodup. destruct wd; [apply d_update_nodup|]; constructor.
 Qed.
 
 (* remove_args / add_args raise ValueError only *)
@@ -824,25 +848,35 @@ Proof.
   destruct (match fb_defaults b with Some (_ :: _) => true | _ => false end); [inversion E; reflexivity | discriminate].
 Qed.
 
+(* a well-formed function object (for stacking: what update_wrapper returns is one again) *)
+Record wf_obj (f : pyfunc) : Prop := {
+  wo_func : wf_func f;
+  wo_dict : NoDup (dkeys (f_dict f))
+}.
+
 (* THE REFINEMENT: the function update_wrapper builds has the signature the
    reference computes from the wrapped function's signature, the wrapped
-   function's metadata, and a body that passes its own parameters on. *)
-Theorem update_wrapper_refines_strong f inj exp :
+   function's metadata, __wrapped__ pointing at the wrapped function whatever
+   attributes that one carried, and a body that passes its own parameters on. *)
+Theorem update_wrapper_opt_refines o gid f inj exp :
   wf_func f -> Forall (fun nd => fst nd <> 0) exp ->
-  match update_wrapper f inj exp, spec_wraps (func_sig f) inj exp with
+  match update_wrapper_opt o gid f inj exp, spec_wraps (func_sig f) inj exp with
   | Ok g, Ok s =>
       sig_of (b_func g) = Ok s /\
       f_name (b_func g) = f_name f /\ f_doc (b_func g) = f_doc f /\
       f_module (b_func g) = f_module f /\ f_async (b_func g) = f_async f /\
-      b_wrapped_is_func g = true /\
+      f_id (b_func g) = gid /\
+      d_get (f_dict (b_func g)) K_WRAPPED = (if o_hide_wrapped o then None else Some (f_id f)) /\
+      d_get (f_dict (b_func g)) K_SIGNATURE = None /\
       b_inv g = inv_of_params (sg_params s) /\
+      wf_obj (b_func g) /\
       exists b2, good b2 /\ s = fb_sig b2
   | Raise e, Raise _ => e = ValueError \/ e = SyntaxErr
   | _, _ => False
   end.
 Proof.
   intros WF NZ. destruct (from_func_good f WF) as [b0 [E0 [G0 [S0 [Mn [Md [Mm Ma]]]]]]].
-  unfold update_wrapper, spec_wraps. rewrite E0, <- S0.
+  unfold update_wrapper_opt, spec_wraps. rewrite E0, <- S0.
   pose proof (remove_args_refines inj b0 G0) as R.
   pose proof (remove_args_raises inj b0) as RR.
   destruct (remove_args b0 inj) as [b1|e1]; destruct (spec_injects inj (fb_sig b0)) as [s1|e1'];
@@ -854,21 +888,48 @@ Proof.
   destruct (add_args b1 exp) as [b2|e2]; destruct (spec_expects exp (fb_sig b1)) as [s2|e2'];
     try exact A; try contradiction.
   - destruct A as [G2 [S2 M2]]. subst s2.
-    destruct (get_func_good b2 G2) as [GF SF]. rewrite GF.
+    destruct (get_func_good b2 gid (o_update_dict o) G2) as [GF SF]. rewrite GF.
     destruct M1 as [M1n [M1d [M1m M1a]]]. destruct M2 as [M2n [M2d [M2m M2a]]].
     assert (META : fb_name b2 = f_name f /\ fb_module b2 = f_module f /\ fb_async b2 = f_async f /\
                    fb_doc b2 = match f_doc f with Some d => d | None => 0 end).
     { repeat split; congruence. }
     destruct META as [Xn [Xm [Xa Xd]]].
-    destruct (f_doc f) as [dc|] eqn:FD; cbn [b_func b_inv b_wrapped_is_func].
-    + split; [exact SF|]. split; [exact Xn|]. split; [simpl; rewrite Xd; reflexivity|].
-      split; [exact Xm|]. split; [exact Xa|]. split; [reflexivity|]. split; [apply get_invocation_fb|].
-      exists b2. split; [exact G2 | reflexivity].
-    + rewrite sig_of_set_doc. split; [exact SF|]. split; [exact Xn|]. split; [reflexivity|].
-      split; [exact Xm|]. split; [exact Xa|]. split; [reflexivity|]. split; [apply get_invocation_fb|].
-      exists b2. split; [exact G2 | reflexivity].
-  - rewrite (get_func_dup b2 A). right. reflexivity.
+    cbn [b_func b_inv]. rewrite sig_of_set_doc_dict.
+    destruct (final_dict_wrapped o (f_id f) (f_dict (fb_func b2 gid (o_update_dict o)))
+                (source_dict_nodup (fb_dict b2) (o_update_dict o))) as [DW [DN DS]].
+    split; [exact SF|]. split; [exact Xn|].
+    split; [destruct (f_doc f); simpl; [rewrite Xd|]; reflexivity|].
+    split; [exact Xm|]. split; [exact Xa|]. split; [reflexivity|].
+    split; [exact DW|]. split; [exact DS|]. split; [apply get_invocation_fb|].
+    split.
+    + constructor; [|exact DN]. constructor; cbn.
+      * exact (g_nodup b2 G2).
+      * exact (g_nonzero b2 G2).
+      * exact (g_len b2 G2).
+    + exists b2. split; [exact G2 | reflexivity].
+  - rewrite (get_func_dup b2 gid (o_update_dict o) A). right. reflexivity.
   - left. apply AR. reflexivity.
+Qed.
+
+Theorem update_wrapper_refines_strong f inj exp :
+  wf_func f -> Forall (fun nd => fst nd <> 0) exp ->
+  match update_wrapper f inj exp, spec_wraps (func_sig f) inj exp with
+  | Ok g, Ok s =>
+      sig_of (b_func g) = Ok s /\
+      f_name (b_func g) = f_name f /\ f_doc (b_func g) = f_doc f /\
+      f_module (b_func g) = f_module f /\ f_async (b_func g) = f_async f /\
+      d_get (f_dict (b_func g)) K_WRAPPED = Some (f_id f) /\
+      b_inv g = inv_of_params (sg_params s) /\
+      exists b2, good b2 /\ s = fb_sig b2
+  | Raise e, Raise _ => e = ValueError \/ e = SyntaxErr
+  | _, _ => False
+  end.
+Proof.
+  intros WF NZ. pose proof (update_wrapper_opt_refines default_options 0 f inj exp WF NZ) as R.
+  unfold update_wrapper.
+  destruct (update_wrapper_opt default_options 0 f inj exp) as [g|e], (spec_wraps (func_sig f) inj exp) as [s|e'];
+    try exact R.
+  destruct R as [H1 [H2 [H3 [H4 [H5 [_ [H7 [_ [H9 [_ H11]]]]]]]]]]. repeat split; assumption.
 Qed.
 
 Theorem update_wrapper_refines f inj exp :
@@ -878,7 +939,7 @@ Theorem update_wrapper_refines f inj exp :
       sig_of (b_func g) = Ok s /\
       f_name (b_func g) = f_name f /\ f_doc (b_func g) = f_doc f /\
       f_module (b_func g) = f_module f /\ f_async (b_func g) = f_async f /\
-      b_wrapped_is_func g = true /\
+      d_get (f_dict (b_func g)) K_WRAPPED = Some (f_id f) /\
       b_inv g = inv_of_params (sg_params s)
   | Raise _, Raise _ => True
   | _, _ => False
